@@ -451,6 +451,28 @@ def finish(pid, tier, seed, results, wall, mod):
         print(f"  obligation {v['obligation']}: {v['what']}")
     for e in errors:
         print(f"HARNESS-ERROR property={pid}: {e}", file=sys.stderr)
+    # the changed code uses something the symbolic engine does not model: the obligations of those jobs are undecided
+    # (exit 3).  Before giving up, the check's concrete replay family (the same functions that confirm solver models) is
+    # run on the real code with its built-in default inputs; a reproduced violation is reported as such.  This decides
+    # nothing when it finds nothing.
+    fallback_note = None
+    if not violations and any("not support" in e or "not modelled" in e for e in errors):
+        ran = 0
+        for fn, kw in getattr(mod, "FALLBACK", []):
+            try:
+                ok, det = fn({}, **kw)
+            except Exception as ex:  # noqa: BLE001
+                ok, det = False, {"what": f"replay raised {ex!r}"}
+            ran += 1
+            if ok:
+                j = Job(pid, "fallback", tier, seed)
+                j._violation(f"concrete replay family after an engine gap: {fn.__name__}{kw}", {"fallback": True},
+                             dict(det, replayer=fn.__name__, replayer_kwargs=kw, _replayed=True), None)
+                violations += j.violations
+                print(f"VIOLATION property={pid} replay={j.violations[0]['replay']}")
+                print(f"  obligation {j.violations[0]['obligation']}: {j.violations[0]['what']}")
+                break
+        fallback_note = f"engine gap: {ran} concrete replays run on the real code, " + ("a violation reproduced" if violations else "none failed (still inconclusive)")
     samples = []
     for o in obligations[:6] + obligations[-2:]:
         samples.append({k: o[k] for k in ("job", "name", "bound", "verdict", "seconds")})
@@ -482,6 +504,7 @@ def finish(pid, tier, seed, results, wall, mod):
             "slowest_obligations": [{k: o[k] for k in ("job", "name", "seconds", "verdict")} for o in slowest],
             "validation_samples": vsamples,
             "known_findings_hit": sorted(seen),
+            "engine_gap_fallback": fallback_note,
             "second_solver": {k: sum(r.get("second", {}).get(k, 0) for r in results) for k in ("agree", "no_answer", "disagree")},
             "jobs": [{"name": r["name"], "wall_s": round(r["wall"], 2), "paths": r["paths"],
                       "obligations": len(r["obligations"])} for r in results],
